@@ -35,22 +35,21 @@ TECHNIQUE = ("Coq proof that the validation model accepts, in any arrival order 
              "heights, leaders, consensus roles) + rule lemmas for later rounds + differential correspondence of the validation "
              "model against the real validator + exploration of timed multi-operator executions of the real code validated by "
              "real peer validators")
-LEVEL_TEXT = ("PARTIAL. Machine-checked: (a) the second sentence of the property for the consensus messages of the first round - "
-              "C10_fault_free_round_broadcasts (what every operator broadcasts, for every committee of distinct non-zero ids, every "
-              "quorum, height, leader) and C10_fault_free_round_is_accepted (those broadcasts, wrapped as a peer receives them, "
-              "through the validation model's entry point from a validator that has seen nothing of the duty: every result is "
-              "Accept, for ANY arrival order, each message at most once, each validated while the peer's clock is in the duty's "
-              "slot - C10_own_slot_is_inside_the_windows turns that into the slot and round window checks incl. their uint64 / "
-              "Duration arithmetic); the same for the round-2 messages of C07's recovery from a silent first round "
-              "(C10_recovery_round_is_accepted: round changes, the justified proposal, prepares, commits; the peer may have seen round 1); "
-              "the proof is an invariant over the per-signer state, the only coupling between messages; "
+LEVEL_TEXT = ("PARTIAL. Machine-checked: (a) the second sentence of the property for the consensus messages of three rounds of the "
+              "protocol model - the fault-free first round, round 2 of the recovery from a silent first round, round 2 of the recovery "
+              "from a prepared first round (C07's theorems; C10_*_broadcasts: the messages are what the operators broadcast): wrapped as "
+              "a peer receives them and run through the validation model's entry point from a validator in which every signer has no "
+              "state or a state of an earlier round of the duty, every result is Accept - for every committee of distinct non-zero ids, "
+              "quorum, height, leader, consensus role, both entry points, ANY arrival order, each message at most once, each validated at "
+              "any instant of the duty's slot (C10_own_slot_is_inside_the_windows: slot window and round window incl. uint64 / Duration "
+              "arithmetic); the proof is an invariant over the per-signer state, the only coupling between messages; "
               "(b) for all states and messages: the validator's call of IsProposalJustification accepts whatever the instance's own "
               "predicate accepts; justifications survive being marshalled without full data; the proposal a correct leader broadcasts "
               "for its current round is signed by that round's round-robin leader (both transcriptions of RoundRobinProposer agree on "
               "all uint64 inputs), carries data hashing to its root and passes the predicate; aggregated decided messages list their "
-              "signers sorted. Not proved: prepared round changes, rounds above 2, decided aggregates composed with the "
-              "validation model over timed executions, partial-signature messages, delivery at other offsets of the window - these are "
-              "explored: real controllers against real validators in timing-respecting executions, all roles, committees 4 and 7.")
+              "signers sorted. Not proved: rounds above 2, decided aggregates, whole timed executions, partial-signature messages, "
+              "delivery at other offsets of the window - these are explored: real controllers against real validators in "
+              "timing-respecting executions, all roles, committees 4 and 7.")
 LEVEL_NOTE = ("Partial claim (DESIGN.md section 7). The predicted rule conflict P2 (ProposalData filled from any message with full data) "
               "needs a correct operator that prepared alone, which timely delivery among correct operators excludes; it is recorded as "
               "an observation outside C10's quantifier.")
